@@ -704,3 +704,40 @@ SUBS = [
                                                      "empty_filter", "port_bytes_differ",
                                                      "hash_stop_default", "hash_stop_given"]),
 ]
+
+
+# ------------------------------------------------------------------- byte fuzzing (added by the lead)
+
+def _fuzz_seeds(tier):
+    return [p2p.envelope("mainnet", b"verack", b""), p2p.envelope("testnet", b"ping", b"\x01" * 8),
+            p2p.envelope("mainnet", b"version", bytes(range(90))) + b"trailing"]
+
+
+def check_fuzz_envelope(case, ctx):
+    """arbitrary bytes: NetworkEnvelope.parse accepts exactly what the reference parser accepts, with the
+    same command and payload, for every network; re-serialising an accepted envelope reproduces its bytes"""
+    data = case["data"]
+    for net in ("mainnet", "testnet", "signet", "regtest"):
+        want = p2p.parse_envelope(data, net)
+        s = BytesIO(data)
+        st_, env = attempt(NetworkEnvelope.parse, s, net)
+        if want is None:
+            require(st_ == "exc", f"fuzz/envelope_accepted_where_reference_rejects:{net}", data.hex()[:200])
+            ctx.label("rejected")
+        else:
+            ctx.label("accepted")
+            ctx.nontrivial()
+            require(st_ == "ok", f"fuzz/valid_envelope_rejected:{net}", type(env).__name__)
+            cmd, payload, used = want
+            require(env.payload == payload, "fuzz/envelope_payload")
+            require(s.tell() == used, "fuzz/envelope_bytes_consumed")
+            core_cmd = cmd.rstrip(b"\x00")
+            if b"\x00" not in core_cmd:  # commands with embedded NUL bytes are outside the stated domain
+                require(env.command == core_cmd, "fuzz/envelope_command")
+                require(env.serialize() == data[:used], "fuzz/envelope_reserialisation")
+
+
+SUBS.append(Sub("fuzz_envelope", check_fuzz_envelope, kind="fuzz", seeds=_fuzz_seeds, max_len=512,
+                budget={"quick": 8000, "thorough": 1600000}, required=["accepted", "rejected"],
+                nontrivial_rule="input accepted as an envelope by the reference parser",
+                doc="quick: Hypothesis byte-level mutations of valid envelopes; thorough: atheris campaign"))
